@@ -32,7 +32,7 @@ class Job:
                  unwindset=None, defines=(), incs=(), timeout=900, mem_gb=12, object_bits=None,
                  extra=(), meta=None, expect_witness=True, replayable=True, group=None,
                  extra_files=None, nondet_static=False, backend=None, extra_sources=None,
-                 loop_policy=None, be_mix=None):
+                 loop_policy=None, be_mix=None, dfcc=None):
         self.name = name              # unique within a check run
         self.harness = harness        # C source text
         self.sources = list(sources)  # paths relative to REPO (or absolute)
@@ -52,6 +52,7 @@ class Job:
         self.group = group or name
         self.extra_files = dict(extra_files or {})   # name -> text, written next to harness
         self.nondet_static = nondet_static
+        self.dfcc = dfcc       # None | name of the function whose (empty) assigns contract is enforced
         self.be_mix = be_mix   # None | 'model-only' | 'macros-only' (sanity twins of C14)
         self.loop_policy = loop_policy   # callable(list of loop dicts) -> {loop id: bound}
         self.extra_sources = dict(extra_sources or {})   # name -> C text, compiled with the harness
@@ -175,13 +176,24 @@ def compile_goto(job, wd):
         cmd += BE_FLAGS[1:]
     elif job.be:
         cmd += BE_FLAGS
+    if job.dfcc:
+        cmd += ['--function', job.entry]
     cmd += [hp] + [os.path.join(wd, n) for n in job.extra_sources] + [_src_path(s) for s in job.sources] + ['-o', gb]
     rc, out, err, wall, rss = run_cmd(cmd, 300, 8, cwd=wd)
+    if rc == 0 and job.dfcc:
+        # dynamic frame condition checking: every assignment reachable from job.dfcc is checked against its
+        # (empty) assigns clause by goto-instrument's instrumentation
+        gb2 = os.path.join(wd, 'h.dfcc.gb')
+        rc, out2, err2, wall, rss = run_cmd(['goto-instrument', '--dfcc', job.entry, '--enforce-contract', job.dfcc, gb, gb2],
+                                            300, 8, cwd=wd)
+        out, err = out + out2, err + err2
+        if rc == 0:
+            os.replace(gb2, gb)
     return rc, (out + err).decode(errors='replace'), gb, cmd
 
 
 def cbmc_cmd(job, gb, trace_prop=None):
-    cmd = ['cbmc', gb, '--function', job.entry] + CBMC_FLAGS
+    cmd = ['cbmc', gb] + ([] if job.dfcc else ['--function', job.entry]) + [f for f in CBMC_FLAGS if not (job.dfcc and f == '--drop-unused-functions')]
     if job.unwind:
         cmd += ['--unwind', str(job.unwind)]
     if job.unwindset:
@@ -305,10 +317,17 @@ def run_job(job, scratch):
     res.failed = [p for p in res.props if p.kind != 'witness' and p.status == 'FAILURE']
     undecided = [p for p in res.props if p.status not in ('SUCCESS', 'FAILURE')]
     res.functions = sorted({p.func for p in res.props if p.func})
-    if undecided:
+    real_fail = [p for p in res.failed if p.kind != 'unwind']
+    if undecided and not real_fail:
         res.status = 'inconclusive'
         res.reason = '%d obligations left undecided by the solver (%s): %s' % (
             len(undecided), ', '.join(sorted({p.status for p in undecided})), '; '.join(msgs[:2]))
+    elif undecided:
+        # a FAILURE is a satisfiable query with a model: sound whatever happened to the other obligations;
+        # it still has to survive the native replay before it is reported
+        res.status = 'fail'
+        res.reason = '%d further obligations left undecided by the solver (%s)' % (
+            len(undecided), ', '.join(sorted({p.status for p in undecided})))
     elif job.expect_witness and (res.witness_total == 0 or res.witness_reached < res.witness_total):
         res.status = 'inconclusive'
         missing = [p.desc for p in wit if p.status != 'FAILURE']
@@ -463,7 +482,7 @@ def write_replay(job, prop, value, tag):
     meta = {'job': job.name, 'property_failed': prop.as_dict(), 'sources': job.sources,
             'incs': job.incs, 'defines': job.defines, 'be': job.be, 'entry': job.entry,
             'unwind': job.unwind, 'unwindset': job.unwindset, 'object_bits': job.object_bits,
-            'extra': job.extra, 'nondet_static': job.nondet_static, 'meta': job.meta,
+            'extra': job.extra, 'nondet_static': job.nondet_static, 'meta': job.meta, 'dfcc': job.dfcc,
             'extra_sources': sorted(job.extra_sources)}
     with open(os.path.join(d, 'meta.json'), 'w') as f:
         json.dump(meta, f, indent=1)
